@@ -7,34 +7,24 @@ import Model.CrashValue
 namespace C05Value
 open CrashValue
 
-/-- the crash sites of the code as it is (each is reproduced on the real code, see
-    props/C05.findings.json). Every other index / slice / make / reflect operation of the
-    model is proved unreachable. -/
-def known (s : Site) : Bool :=
-  s == ⟨.unmarshalList, .reflectMakeslice⟩   -- negative list length into reflect.MakeSlice
-  || s == ⟨.readBytes, .slice⟩                -- tuple / UDT field length beyond the data
-  || s == ⟨.unmarshalTuple, .index⟩           -- []interface{} destination shorter than the tuple
-  || s == ⟨.unmarshalDate, .index⟩            -- date value of 1..3 bytes
-  || s == ⟨.unmarshalTuple, .reflect⟩         -- tuple into a struct/slice/array whose field type differs from goType
-  || s == ⟨.unmarshalUDT, .reflect⟩           -- UDT field name equal to an unexported struct field
-
 /-- `o` never crashes -/
 def NoCrash {α : Type} (o : Res α) : Prop := ∀ s, o ≠ .crash s
 
-/-- `o` crashes only at a known site, and not at all in the fixed variant -/
-def Safe (fx : Bool) {α : Type} (o : Res α) : Prop := ∀ s, o = .crash s → fx = false ∧ known s = true
+/-- the same, in the form the structural lemmas use -/
+def Safe {α : Type} (o : Res α) : Prop := ∀ s, o = .crash s → False
 
 @[simp] theorem ok_bind {α β : Type} (a : α) (f : α → Res β) : (Res.ok a >>= f) = f a := rfl
 @[simp] theorem err_bind {α β : Type} (f : α → Res β) : ((Res.err : Res α) >>= f) = .err := rfl
 @[simp] theorem crash_bind {α β : Type} (s : Site) (f : α → Res β) : ((Res.crash s : Res α) >>= f) = .crash s := rfl
 
-theorem NoCrash.safe {fx : Bool} {α : Type} {o : Res α} (h : NoCrash o) : Safe fx o :=
+theorem NoCrash.safe {α : Type} {o : Res α} (h : NoCrash o) : Safe o :=
   fun s hs => absurd hs (h s)
+theorem Safe.noCrash {α : Type} {o : Res α} (h : Safe o) : NoCrash o := fun s hs => h s hs
 
 @[simp] theorem nocrash_ok {α : Type} (a : α) : NoCrash (Res.ok a) := fun _ h => by cases h
 @[simp] theorem nocrash_err {α : Type} : NoCrash (Res.err : Res α) := fun _ h => by cases h
-@[simp] theorem safe_ok {fx : Bool} {α : Type} (a : α) : Safe fx (Res.ok a) := fun _ h => by cases h
-@[simp] theorem safe_err {fx : Bool} {α : Type} : Safe fx (Res.err : Res α) := fun _ h => by cases h
+@[simp] theorem safe_ok {α : Type} (a : α) : Safe (Res.ok a) := fun _ h => by cases h
+@[simp] theorem safe_err {α : Type} : Safe (Res.err : Res α) := fun _ h => by cases h
 
 theorem nocrash_bind {α β : Type} {x : Res α} {f : α → Res β}
     (hx : NoCrash x) (hf : ∀ a, x = .ok a → NoCrash (f a)) : NoCrash (x >>= f) := by
@@ -43,8 +33,8 @@ theorem nocrash_bind {α β : Type} {x : Res α} {f : α → Res β}
   | err => simp
   | crash s => exact absurd rfl (hx s)
 
-theorem safe_bind {fx : Bool} {α β : Type} {x : Res α} {f : α → Res β}
-    (hx : Safe fx x) (hf : ∀ a, x = .ok a → Safe fx (f a)) : Safe fx (x >>= f) := by
+theorem safe_bind {α β : Type} {x : Res α} {f : α → Res β}
+    (hx : Safe x) (hf : ∀ a, x = .ok a → Safe (f a)) : Safe (x >>= f) := by
   cases x with
   | ok a => exact hf a rfl
   | err => simp
@@ -54,14 +44,8 @@ theorem safe_bind {fx : Bool} {α β : Type} {x : Res α} {f : α → Res β}
     cases h
     exact hx s rfl
 
-/-- a crash of the code as it is that the fix turns into an error is Safe when the site is known -/
-theorem safe_crashOrErr {fx : Bool} {α : Type} {s : Site} (h : known s = true) :
-    Safe fx (crashOrErr fx s : Res α) := by
-  intro s' hs
-  unfold crashOrErr at hs
-  cases fx with
-  | true => simp at hs
-  | false => simp at hs; subst hs; exact ⟨rfl, h⟩
+theorem safe_errIf (bad : Bool) : Safe (errIf bad) := by
+  unfold errIf; split <;> simp
 
 theorem idx_ok {fn : Fn} {d : Bytes} {i : Nat} (h : i < d.length) : idx fn d i = .ok (d.getD i 0) := by
   simp [idx, h]
